@@ -131,7 +131,8 @@ const P_SIZEMASK_ALL: usize = 85;
 const P_SIZEMASK_SUBSET: usize = 86;
 const P_SELECT_FROM_MUTATED: usize = 87;
 const P_COMPOSE_FROM_MUTATED: usize = 88;
-const NPROBES: usize = 89;
+const P_LEN_XL: usize = 89;
+const NPROBES: usize = 90;
 
 fn probe_names() -> Vec<String> {
     let mut v = vec![String::new(); NPROBES];
@@ -180,6 +181,7 @@ fn probe_names() -> Vec<String> {
     v[P_LEN_S] = "swarm_history_len_1_3".into();
     v[P_LEN_M] = "swarm_history_len_4_12".into();
     v[P_LEN_L] = "swarm_history_len_13_48".into();
+    v[P_LEN_XL] = "swarm_history_len_200_600_on_1_or_2_registers".into();
     v[P_SIZEMASK_ALL] = "swarm_all_sizes_enabled".into();
     v[P_SIZEMASK_SUBSET] = "swarm_subset_of_sizes_enabled".into();
     v[P_SELECT_FROM_MUTATED] = "select_from_register_with_setter_writes".into();
@@ -1015,10 +1017,17 @@ impl World for C19 {
                 }
             }
         }
-        let len = match rng.below(3) {
-            0 => 1 + rng.usize_below(3),
-            1 => 4 + rng.usize_below(9),
-            _ => 13 + rng.usize_below(MAX_LEN - 12),
+        // one run in 256 is a long-lived history on one or two objects
+        let xl = rng.below(256) == 0;
+        let nregs = if xl { 1 + rng.usize_below(2) } else { nregs };
+        let len = if xl {
+            200 + rng.usize_below(401)
+        } else {
+            match rng.below(3) {
+                0 => 1 + rng.usize_below(3),
+                1 => 4 + rng.usize_below(9),
+                _ => 13 + rng.usize_below(MAX_LEN - 12),
+            }
         };
         obs.hit(P_NREGS + nregs - 1);
         obs.hit(P_ALPHA + alpha);
@@ -1028,8 +1037,10 @@ impl World for C19 {
             P_LEN_S
         } else if len <= 12 {
             P_LEN_M
-        } else {
+        } else if len <= MAX_LEN {
             P_LEN_L
+        } else {
+            P_LEN_XL
         });
         let npool = 1 + rng.usize_below(4);
         let mut pool: Vec<u32> = (0..npool).map(|_| card_word(rng.usize_below(52))).collect();
